@@ -139,7 +139,7 @@ def check(index, ctx):
                     f"overlap check operands: {[(e['left'], e['right']) for e in ov]}", ov[0]["loc"] if ov else "")
         if ov:
             ov_fn = ov[0]["function"]
-    rej = [r for r in run.raising() if r.exc.exc_name == "ValueError" and any(e["kind"] == "decision" and "intersection" in e["test"] and e["outcome"] is True for e in r.events[-6:])]
+    rej = [r for r in run.raising() if r.exc.exc_name == "ValueError" and _pipe.overlap_rejection(r)]
     ctx.require(bool(rej), "R3", "mtl_backward: overlapping default sets are rejected", "ValueError path", "no ValueError path for overlapping default sets", "")
     if ov_fn:
         fi = index.functions.get(ov_fn)
